@@ -37,7 +37,11 @@ func drawC20(t *rapid.T) C20Case {
 			n = max
 		}
 		p := rapid.IntRange(1, 64).Draw(t, "period")
-		c.Data = gen.Recipe{Segs: []gen.Seg{{Kind: "period", N: n, A: p, Seed: rapid.Uint64Range(0, 1<<20).Draw(t, "seed")}}}
+		if rapid.Bool().Draw(t, "longperiod") {
+			// rapid's integers lean towards the small end; long periods are where a period's windows can repeat
+			p = 64 - rapid.IntRange(0, 31).Draw(t, "period_from_top")
+		}
+		c.Data = gen.Recipe{Segs: []gen.Seg{{Kind: "period", N: n, A: p, B: rapid.SampledFrom([]int{0, 0, 2, 3, 4, 16, 64}).Draw(t, "palpha"), Seed: rapid.Uint64Range(0, 1<<20).Draw(t, "seed")}}}
 	} else {
 		c.Mode = "expansion"
 		c.Set.Level = rapid.SampledFrom([]int{-2, -1, 1, 2}).Draw(t, "level")
@@ -149,6 +153,23 @@ func collidingFraction(pat []byte) float64 {
 	return worst
 }
 
+// repeatedWindow is the class predicate of the known finding "periodic-repeated-windows": some 4-byte
+// window occurs more than once within one period. The match finders remember one (the most recent)
+// position per window and accept it greedily, so the candidate is then less than one period back, at
+// a distance that is not a multiple of the period, and the parse settles into short matches.
+func repeatedWindow(pat []byte) bool {
+	p := len(pat)
+	seen := map[uint32]bool{}
+	for i := 0; i < p; i++ {
+		g := uint32(pat[i%p]) | uint32(pat[(i+1)%p])<<8 | uint32(pat[(i+2)%p])<<16 | uint32(pat[(i+3)%p])<<24
+		if seen[g] {
+			return true
+		}
+		seen[g] = true
+	}
+	return false
+}
+
 // periodOf returns the period bytes of a "periodic" case.
 func (c C20Case) periodOf() []byte {
 	if c.Mode != "periodic" || len(c.Data.Segs) == 0 {
@@ -216,6 +237,11 @@ func TestC20(t *testing.T) {
 		if c.Mode == "periodic" && knownActive("periodic-hash-bucket-collisions") && collidingFraction(c.periodOf()) >= 0.75 {
 			stats.Exclude("C20", "periodic-hash-bucket-collisions")
 			return
+		}
+		if c.Mode == "periodic" && knownActive("periodic-repeated-windows") && repeatedWindow(c.periodOf()) {
+			// residual oracle for the class: the stream must still be valid and within the expansion bound
+			stats.Exclude("C20", "periodic-repeated-windows")
+			c.Mode = "expansion"
 		}
 		done := begin("C20", c)
 		defer done()
